@@ -24,6 +24,7 @@ EXPLANATION = (
     "(D4n) a rule's predicate answers False for non-gate operations instead of dereferencing `.gate`; (D4a) the angles reach the emitted gates unmodified (no element-wise transformation such as a reduction modulo 2*pi)."
     ' Round 4: the applied rule is taken from the front of the list; an unwrap through a helper that walks .wrapped_gate without asking for ControlledGate is an undiscriminating unwrap.'
     " Round 5: (D5) no cache handing out a one-shot iterator; angle reductions inside the target's matrix must be periods of it (a sign under a control is a relative phase)."
+    ' Round 7: every list bound to the emitted-gates name is judged as a factorisation (D4).'
 )
 RULE_TEXT = "instances = branches/comprehensions of the two chaining functions, the width construction, and per bundled rule: factor correspondences, phase scalar, control handling, ordering; distinct by (rule, construct)"
 ASSUMPTIONS = [
